@@ -4,6 +4,7 @@
 #include "c11_views.h"
 #include "c12_mmio.h"
 #include "c14_apbp.h"
+#include "c15_mmio.h"
 #include "c17_reset.h"
 
 // ---- heap fill seam (C17): every operator-new block is pre-filled with a pattern chosen by the harness ----
@@ -51,6 +52,8 @@ int main(int argc, char** argv) {
             return c17::RunReplay(args.replay, res);
         if (args.replay.rfind("c11", 0) == 0)
             return c11::RunReplay(args.replay, res);
+        if (args.replay.rfind("c15m", 0) == 0)
+            return c15m::RunReplay(args.replay, res);
         if (args.replay.rfind("c14", 0) == 0)
             return c14::RunReplay(args.replay, res);
         return 2;
@@ -65,6 +68,9 @@ int main(int argc, char** argv) {
         c17::Run(args, res);
     } else if (args.sub == "c11") {
         c11::Run(args, res);
+    } else if (args.sub == "c15mmio") {
+        res.property = "C15";
+        verif::RunIsolated(res, [&](verif::Result& r) { c15m::Run(args, r); });
     } else if (args.sub == "c14") {
         res.property = "C14";
         verif::RunIsolated(res, [&](verif::Result& r) { c14::Run(args, r); });
